@@ -86,6 +86,23 @@ def step (st : St) (op implObs : String) : St × String × List String × List S
       | some (v, i, w) => [s!"C18 blocked-mismatch ip={v} impl={boolStr i} linear-scan={boolStr w}"]
     let tags := (if want.any id ∧ want.any (!·) then ["mixed-answers"] else [])
     (st, bits model, viol, tags)
+  | some "resolve" =>
+    -- resolver.Resolve: refused as blocked iff the address (literal, or what the host name resolves to) is in a
+    -- loaded range.  "L" = localhost = 127.0.0.1; a failed lookup of it is the environment's business (echoed).
+    let hosts := commaList (kvStr toks "hosts")
+    let addr (h : String) : Nat := if h = "L" then 2130706433 else parseNat! h
+    let implCs := implObs.toList
+    let wantCs := hosts.map fun h => if inRules st.implRules (addr h) then '1' else '0'
+    let modelCs := (hosts.zip ((List.range hosts.length).map fun i => implCs.getD i '?')).map fun (h, c) =>
+      if h = "L" && c = 'e' then 'e' else (if st.model.blocked (some (addr h)) then '1' else '0')
+    let bad := (hosts.zip (implCs.zip wantCs)).filter fun (h, i, w) => i ≠ w && !(h = "L" && i = 'e')
+    let viol :=
+      if implCs.length ≠ hosts.length then [s!"C18 resolve-answer-shape impl={implObs}"] else
+      match bad.head? with
+      | none => []
+      | some (h, i, w) => [s!"C18 resolve-blocked-mismatch host={h} impl={i} linear-scan={w}"]
+    let tags := (if hosts.contains "L" && (implCs.headD '?') ≠ 'e' then ["branch:resolve-hostname"] else [])
+    (st, String.ofList modelCs, viol, tags)
   | some "blockedv6" =>
     let viol := if implObs = "0" then [] else ["C18 blocked-non-ipv4"]
     (st, boolStr (st.model.blocked none), viol, [])
